@@ -79,6 +79,11 @@ func (a *Application) providerProxyHandler(w http.ResponseWriter, r *http.Reques
 	// The proxy needs to know which prefix to strip before forwarding.
 	// This mimics the behaviour of the main router for consistency.
 	providerPrefix := getProviderPrefix(providerType)
+	// providerType is the canonical name; the prefix to strip is the one the client used
+	// (/olla/lmstudio and /olla/lm_studio are aliases of /olla/lm-studio)
+	if used := requestedProviderPrefix(r.URL.Path); used != "" {
+		providerPrefix = used
+	}
 	ctx = context.WithValue(ctx, constants.ContextRoutePrefixKey, providerPrefix)
 	r = r.WithContext(ctx)
 
